@@ -116,6 +116,8 @@ class Scratch:
         return p
 
     def cleanup(self):
+        if os.environ.get("VERIF_KEEP_SCRATCH"):
+            return          # developer aid (never set by the registered commands); the directory is then removed by hand
         shutil.rmtree(self.path, ignore_errors=True)
 
     def __enter__(self):
